@@ -537,7 +537,7 @@ def coq_class(r):
 
 def signature(r):
     tag = CLASS_TAG[r["cls"]]
-    if r["cls"] in ("SSliceIndex", "SSubListIndex", "SZeroGuard") and r["off"]:
+    if r["cls"] in ("SSliceIndex", "SSubListIndex", "SZeroGuard", "SIndexOff") and r["off"]:
         tag += f"{r['off']:+d}"
     return f"site:{r['file']}:{r['function']}:{r['key']}:{tag}"
 
@@ -563,7 +563,7 @@ def emit_coq(rows, path, known_idx=()):
 
     lines = ["(* generated by harness/c14_sites.py from the parser sources; do not edit *)",
              "From Coq Require Import ZArith List String Bool.",
-             "From Bardic Require Import Diag DiagProofs C14.",
+             "From Bardic Require Import Diag DiagCheck.",
              "Import ListNotations.", "Local Open Scope string_scope.", "",
              "Definition site_table : list site := ["]
     lines.append(";\n".join(
@@ -576,7 +576,7 @@ def emit_coq(rows, path, known_idx=()):
     open(path, "w").write("\n".join(lines))
     ob = ["From Coq Require Import ZArith List String Bool.",
           "From Bardic Require Import Diag DiagProofs C14.",
-          "Require Import Gen_C14_sites.", "Import ListNotations.", ""]
+          "From C14Gen Require Import Gen_C14_sites.", "Import ListNotations.", ""]
     if known_idx:
         ob += [f"Definition known_idx : list nat := [{'; '.join(str(i) for i in known_idx)}].",
                "Definition checked_table := drop_idx known_idx 0 site_table."]
@@ -588,7 +588,7 @@ def emit_coq(rows, path, known_idx=()):
            "Proof. vm_compute. reflexivity. Qed.",
            "Theorem every_site_displays_the_true_location :",
            "  forall s, In s checked_table -> site_displays_right s.",
-           "Proof. exact (all_sites_display_right checked_table site_table_ok). Qed.",
+           "Proof. exact (every_site_of_an_ok_table_displays_the_true_location checked_table site_table_ok). Qed.",
            "Print Assumptions every_site_displays_the_true_location.", ""]
     open(os.path.join(os.path.dirname(path), "Gen_C14_ok.v"), "w").write("\n".join(ob))
 
